@@ -2,7 +2,9 @@ package ref
 
 import (
 	"math/big"
+	"sort"
 	"strings"
+	"unicode"
 )
 
 // SemVer 2.0.0 reference: a hand-written recogniser of the BNF (no regexp) and an independent section-11 comparator.
@@ -275,4 +277,38 @@ func appendU(b []byte, v uint64) []byte {
 		}
 	}
 	return append(b, tmp[i:]...)
+}
+
+// ConfusableRunes returns runes outside ASCII that an implementation could mistake for one of the given ASCII characters:
+// runes whose Unicode simple case folding orbit contains the character, runes whose low byte equals the character
+// (truncation of a rune to a byte), and the full-width forms.
+func ConfusableRunes(chars string) []rune {
+	want := map[byte]bool{}
+	for i := 0; i < len(chars); i++ {
+		want[chars[i]] = true
+	}
+	seen := map[rune]bool{}
+	var out []rune
+	add := func(r rune) {
+		if r >= 0x80 && !seen[r] && !(r >= 0xD800 && r <= 0xDFFF) {
+			seen[r] = true
+			out = append(out, r)
+		}
+	}
+	for r := rune(0x80); r <= 0xFFFF; r++ {
+		if want[byte(r)] && (r < 0x800 || r&0xFF00 == 0x2100 || r&0xFF00 == 0x0400 || r&0xFF00 == 0xFF00 || r%7 == 0) {
+			add(r)
+		}
+	}
+	for c := range want {
+		for f := unicode.SimpleFold(rune(c)); f != rune(c); f = unicode.SimpleFold(f) {
+			add(f)
+		}
+		add(rune(c) + 0xFEE0) // full-width form
+	}
+	for _, r := range []rune{0x017F, 0x212A, 0x0130, 0x0131, 0x2160, 0x216F, 0x2170, 0x00A0, 0x2028, 0xFEFF, 0x200B, 0x0660, 0x06F0, 0xFF10, 0x2212, 0x2010, 0x2024, 0xFE52, 0x10000 + 'a', 0x1D7CE} {
+		add(r)
+	}
+	sort.Slice(out, func(i, j int) bool { return out[i] < out[j] })
+	return out
 }
